@@ -15,19 +15,23 @@ K = {"quick": 4, "thorough": 12}
 SEEDS = {"quick": ["0", "1", "2"], "thorough": [str(i) for i in range(12)]}
 
 
+def raw_table(text):
+    """section -> option -> value exactly as written (the '; WARNING' pseudo-options of [general] included, which a
+    ConfigParser would skip as comments)"""
+    table, cur = {}, None
+    for line in text.split("\n"):
+        if line.startswith("[") and line.endswith("]"):
+            cur = table.setdefault(line[1:-1], {})
+        elif line and cur is not None:
+            k, _, v = line.partition(" = ")
+            cur[k] = v
+    return table
+
+
 def run(chk):
     chk.build(["Props/C08.vo"])
     rng = core.Rng(chk.seed * 7919 + 8)
     cases = S.generate(rng, N[chk.tier], K[chk.tier])
-    # the model's bytes for the content (construction order as generated)
-    lines = [wire.encode_line(*S.to_model(c)) for c in cases]
-    mres = core.run_model(lines)
-    mtext = []
-    for c, r in zip(cases, mres):
-        if c["kind"] in ("composeinfo", "treeinfo"):
-            mtext.append(r[1] if r[0] == "ok" else r)
-        else:
-            mtext.append(r[1][0] if r[0] == "ok" else r)
     per_seed = {}
     distinct_orders = 0
     for seed in SEEDS[chk.tier]:
@@ -37,6 +41,7 @@ def run(chk):
         finally:
             ir.close()
     bad = 0
+    agreed = []
     for i, c in enumerate(cases):
         texts = set()
         for seed, res in per_seed.items():
@@ -53,17 +58,33 @@ def run(chk):
             chk.violation("%s: the same content gives %d different byte sequences across construction orders / hash seeds"
                           % (c["kind"], len(texts)), c, "order")
             bad += 1
-        elif texts and isinstance(mtext[i], str) and texts != {mtext[i]}:
-            chk.obligation("suite:order[%d]" % i, False, "model bytes differ from the implementation's for %s content" % c["kind"])
+        if len(texts) == 1:
+            agreed.append((i, c["kind"], next(iter(texts))))
+    # the tie for the theorems: the model's printers (print_json / print_ini) reproduce the real writers' bytes from the parsed
+    # tree of what was written (the per-format section writers are not involved here: they belong to C01-C04)
+    import json as _json
+    from suites import docs_treeinfo as DT
+    lines = []
+    for i, kind, text in agreed:
+        if kind == "treeinfo":
+            lines.append(wire.encode_line("print_ini", raw_table(text)))
+        else:
+            lines.append(wire.encode_line("print_json", _json.loads(text)))
+    pres = core.run_model(lines)
+    for (i, kind, text), r in zip(agreed, pres):
+        if r != text:
+            chk.obligation("suite:printer[%d]" % i, False, "the model printer does not reproduce the written %s bytes" % kind)
+            chk.disagreements.append({"suite": "printer", "case": {"kind": kind, "text": text[:2000]}, "impl": text[:300], "model": str(r)[:300]})
             bad += 1
     chk.obligation("suite:order", bad == 0, "" if bad == 0 else "%d problems" % bad)
     chk.add_cases(cases, [True] * len(cases))
     chk.traces += len(cases) * K[chk.tier] * len(SEEDS[chk.tier])
     chk.record_suite("order", {"contents": len(cases), "orders_per_content": K[chk.tier], "hash_seeds": SEEDS[chk.tier],
                                "kinds": ["rpms", "modules", "extra", "images", "composeinfo", "treeinfo"]})
-    chk.samples.append({"suite": "order", "case": {k: cases[0][k] for k in cases[0] if k != "orders"}, "bytes": len(mtext[0]) if isinstance(mtext[0], str) else None})
+    chk.samples.append({"suite": "order", "case": {k: cases[0][k] for k in cases[0] if k != "orders"}, "bytes": len(agreed[0][2]) if agreed else None})
     return chk.finish(
         rule="one content per case (rpms/modules/extra histories, image pools, compose descriptions), constructed in K interleavings "
              "(cell-internal order kept where the list order is content) and dumped twice, in separate interpreter processes "
-             "under each PYTHONHASHSEED; all byte sequences must coincide with each other and with the model's",
+             "under each PYTHONHASHSEED; all byte sequences must coincide with each other; the model printers (print_json, print_ini) "
+             "must reproduce them from the parsed tree of what was written",
         trusted=TRUSTED)
